@@ -8,7 +8,7 @@ from props.c09 import KEYMAPS, build_target, kmtag, shape, rest_sig
 PROP = 'C10'
 LEVEL = 'exploration'
 RULE = ("cases = generated signature x kind {function, method, partial} x binding B1 x B2 derived from B1 by ONE edit (change a named value, an "
-        "extra positional, an extra keyword, a keyword-only value; add/drop an extra positional or keyword; swap a value for its str()/repr() "
+        "extra positional, an extra keyword, a keyword-only value; add/drop an extra positional or keyword; spell the keyword part of a purely variadic call as trailing positionals f(a=1) vs f('a', 1); swap a value for its str()/repr() "
         "look-alike such as 1 vs '1', 'a' vs \"'a'\"; or for an equal-but-differently-typed twin 1/1.0/True) x information-preserving keymap (raw, "
         "string, pickle, md5/sha1 hash; non-flat, or flat with sentinel, or signature without *args) x typed x path {f.key, keygen, _keygen+keymap, real "
         "calls}. Oracle: inspect.signature().bind(...) arguments unequal => keys unequal and the second real call is evaluated and returns its own "
@@ -53,6 +53,9 @@ def edits(draw, rest, b, vals, sibling=None, prefer_twin_swap=False):
     if len(named_slots) >= 2:
         # equal-but-differently-typed values swapped between two parameters: what a typed key must still tell apart
         structural = structural + ['twin_swap'] * (8 if prefer_twin_swap else 1)
+    if rest.get('varargs') and rest.get('varkw') and not (rest.get('req') or rest.get('opt') or rest.get('kwreq') or rest.get('kwopt')):
+        # purely variadic: the keyword part of one call spelled out as trailing positionals of the other (what the sentinel exists to tell apart)
+        structural = structural + ['kw_as_pos'] * 4
     omitted_opt = [n for n, _ in rest.get('opt', []) if n not in [k for k, _ in b.get('named', [])]]
     if sibling and omitted_opt and not b.get('xpos'):
         structural = structural + ['sibling_default', 'sibling_default']
@@ -80,6 +83,18 @@ def edits(draw, rest, b, vals, sibling=None, prefer_twin_swap=False):
         b1[k1][i1][1], b1[k2][i2][1] = x, y
         b2[k1][i1][1], b2[k2][i2][1] = y, x
         return b1, b2, 'twin_swap'
+    if choice == 'kw_as_pos':
+        if not b1.get('xkw'):
+            b1['xkw'] = [[draw(st.sampled_from(S.XKW)), draw(vals)]]
+        if draw(st.booleans()):
+            b1['xpos'] = []          # the purely-keyword call against the purely-positional one
+        b2 = copy.deepcopy(b1)
+        flat = []
+        for n, v in sorted(b1['xkw'], key=lambda nv: nv[0]):
+            flat += [['s', n], v]
+        b2['xpos'] = list(b1.get('xpos', [])) + flat
+        b2['xkw'] = []
+        return b1, b2, 'kw_as_pos'
     if choice == 'sibling_default':
         n = omitted_opt[draw(st.integers(0, len(omitted_opt) - 1))]
         b2['named'].append([n, dict(sibling)[n]])
@@ -140,8 +155,17 @@ def cases(draw, path, focus=None, family=None):
         n = preset_omitted[draw(st.integers(0, len(preset_omitted) - 1))]
         b1, b2, ek = copy.deepcopy(b), copy.deepcopy(b), 'spell_original_default'
         b2.setdefault('kwonly', []).append([n, dict((k, d) for k, d in sig['kwopt'])[n]])
+    if focus == 'single':
+        # exactly one positional of a purely variadic function: the corner where keymap.encode unwraps a lone 'fast type' argument,
+        # so the encoder sees the bare object instead of a tuple (1 vs '1', None vs 'None', b'a' vs "b'a'")
+        sig = {'req': [], 'opt': [], 'varargs': True, 'kwreq': [], 'kwopt': [], 'varkw': draw(st.booleans())}
+        kind, nfix, pkw, sibling, tol, deep = 'function', 0, [], None, None, False
+        x, y = draw(st.sampled_from(LOOKALIKES + TWINS))
+        if draw(st.booleans()):
+            x, y = y, x
+        b1, b2, ek = {'named': [], 'xpos': [x], 'kwonly': [], 'xkw': []}, {'named': [], 'xpos': [y], 'kwonly': [], 'xkw': []}, 'lookalike:xpos'
     kms = [k for k in KEYMAPS if info_preserving(k, bool(sig['varargs']))]
-    if focus == 'varargs':
+    if focus in ('varargs', 'single'):
         kms = [k for k in kms if k['flat']]
     if family is not None:
         kms = [k for k in kms if family_of(k) == family] or kms
@@ -155,7 +179,7 @@ def cases(draw, path, focus=None, family=None):
 def strata(tier):
     # one stratum per (path, keymap family): typed raw keys, string, pickle, hash and chained keymaps each get their own budget
     out = [('path:%s/%s' % (p, fam), cases(p, None, fam)) for p in PATHS for fam in FAMILIES]
-    return out + [('varargs/path:' + p, cases(p, 'varargs')) for p in PATHS]
+    return out + [('varargs/path:' + p, cases(p, 'varargs')) for p in PATHS] + [('single-vararg/path:' + p, cases(p, 'single')) for p in PATHS]
 
 
 def top_level_type_diff(x, y):
@@ -281,13 +305,13 @@ def run_case(case):
                                    'calls (*%r, **%r) and (*%r, **%r) bind %r vs %r but share key %r' % (a1, k1, a2, k2, x, y, key1)))
     ek = case['edit']
     nt = None
-    if ek.startswith(('lookalike', 'twin')) or ek in ('add_xpos', 'drop_xpos', 'add_xkw', 'drop_xkw') or ek.endswith((':xpos', ':xkw', ':kwonly')):
+    if ek.startswith(('lookalike', 'twin')) or ek in ('add_xpos', 'drop_xpos', 'add_xkw', 'drop_xkw', 'kw_as_pos') or ek.endswith((':xpos', ':xkw', ':kwonly')):
         nt = (shape(sig), tag, path, ek, repr(a1), repr(sorted(k1.items(), key=repr)), repr(a2), repr(sorted(k2.items(), key=repr)))
         classes.append('nt:' + ek.split(':')[-1])
     return out, nt, classes
 
 
-REQUIRED_CLASSES = ['tol:0', 'tol:1', 'edit:spell_original_default', 'unequal_pair', 'twin_typed', 'edit:twin_swap', 'edit:sibling_default', 'sibling_keyed_first', 'edit:lookalike', 'edit:add_xpos', 'edit:add_xkw', 'nt:xpos', 'nt:xkw', 'nt:kwonly', 'kind:method', 'kind:partial']
+REQUIRED_CLASSES = ['edit:kw_as_pos', 'tol:0', 'tol:1', 'edit:spell_original_default', 'unequal_pair', 'twin_typed', 'edit:twin_swap', 'edit:sibling_default', 'sibling_keyed_first', 'edit:lookalike', 'edit:add_xpos', 'edit:add_xkw', 'nt:xpos', 'nt:xkw', 'nt:kwonly', 'kind:method', 'kind:partial']
 
 
 def trig_flat_str_unwrap(case, discr):
